@@ -24,7 +24,7 @@ CLAIM = ('Every one of the ~230 parse-error sites (whether or not any input reac
          'and no handler on the parse path can swallow the exception. Holds for all sites, not for sampled '
          "inputs. The stream's position counters are re-initialised by reset(); errors of a pass abandoned for "
          'an encoding restart are treated alike in both modes (known finding: they are not).'
-         " A handler that records a parse error on every call implements a cell of the standard's tables whose rule is a parse error (56 handlers, table transcribed by hand). The self-closing flag is acknowledged for the conforming void elements and for no non-void element. After `&` an error token appears exactly where the standard's tokenizer reports one (five known findings: AT&T, a &b c, ?y&z, &copy=2, &noti in attributes).")
+         " A handler that records a parse error on every call implements a cell of the standard's tables whose rule is a parse error (56 handlers, table transcribed by hand). The self-closing flag is acknowledged for the conforming void elements and for no non-void element. After `&` an error token appears exactly where the standard's tokenizer reports one (five known findings: AT&T, a &b c, ?y&z, &copy=2, &noti in attributes). The trailing-solidus error is decided after the token's last reprocessing, not inside the reprocessing loop.")
 NOT_DECIDED = ("positions inside the input, 'conforming documents record no errors' beyond the unconditional-error clause (tokenizer error cells are not transcribed), other exception types raised by "
                "unrelated defects.")
 MODULES = ["html5parser.py", "_tokenizer.py", "_inputstream.py", "constants.py",
